@@ -144,6 +144,85 @@ class Mirror:
                     ok = False
         return ok
 
+    def verify_index(self, name, what=""):
+        """raw index entries vs the heap: for every indexed column the entry multiset is {(key(row), rid)}"""
+        types, names, kinds = self.tables[name]
+        sc = self.db.cmd("scan " + name)
+        if not sc.startswith("ok:"):
+            self.fail("scan " + name, "scan failed: " + sc); return False
+        rows = [e.split("=", 1) for e in sc[3:].split(";")] if sc[3:] else []
+        ok = True
+        for c, k in enumerate(kinds):
+            if k == "n":
+                continue
+            ix = self.db.cmd("idx %s %d" % (name, c))
+            if not ix.startswith("ok:"):
+                self.fail("idx %s %d %s" % (name, c, what), "index scan failed: " + ix); ok = False; continue
+            got = sorted(ix[3:].split(";")) if ix[3:] else []
+            want = []
+            for rid, vals in rows:
+                v = vals.split(",")[c]
+                if v == "n":
+                    v = {"i": "i:0", "f": "f:0", "s": "s:-"}[types[c]]      # NULL is indexed under the zero value
+                if v == "f:2147483648":
+                    v = "f:0"                                               # -0.0 is stored as +0.0 in the key (C18)
+                want.append("%s@%s" % (v, rid))
+            want.sort()
+            if got != want:
+                extra = [e for e in got if e not in want][:4]
+                missing = [e for e in want if e not in got][:4]
+                self.fail("idx %s %d %s" % (name, c, what), "index on %s.%s disagrees with the table: entries without a row %s, rows without an entry %s" % (name, names[c], extra, missing))
+                ok = False
+        return ok
+
+    def txn_block(self, name, nstmt, commit):
+        """an explicit transaction of nstmt statements on table `name`, committed or aborted; mirrored only if committed"""
+        types, names, kinds = self.tables[name]
+        self.db.cmd("begin w")
+        refops = []
+        for _ in range(nstmt):
+            r = self.rng.random()
+            if r < 0.4:
+                vals = self.rnd_vals(name)
+                if not all(v.literal_ok() for v in vals):
+                    continue
+                sql = "INSERT INTO %s(%s) VALUES (%s);" % (name, ",".join(names), ", ".join(v.sql() for v in vals))
+                ro = "R %s %s" % (name, ",".join(v.tok() for v in vals))
+            elif r < 0.75:
+                p = self.rnd_where(name)
+                cs = self.rng.sample(range(len(types)), self.rng.randrange(1, len(types) + 1))
+                asg = []
+                for c in cs:
+                    v = rnd_val(self.rng, types[c], small=False)
+                    if kinds[c] == "b" and types[c] == "s":
+                        v = Val("s", v.v[:20])
+                    asg.append((c, v))
+                if not all(v.literal_ok() for _, v in asg):
+                    continue
+                sql = "UPDATE %s SET %s WHERE %s;" % (name, ", ".join("%s = %s" % (names[c], v.sql()) for c, v in asg), p.sql(names))
+                ro = "U %s %s %s" % (name, ",".join("%d=%s" % (c, v.tok()) for c, v in asg), p.rpn())
+            else:
+                p = self.rnd_where(name)
+                sql = "DELETE FROM %s WHERE %s;" % (name, p.sql(names))
+                ro = "D %s %s" % (name, p.rpn())
+            a = self.db.cmd("tsql w " + sql)
+            if a.startswith("ok"):
+                refops.append(ro)
+            elif a == "aborted":
+                commit = False
+                break
+            else:
+                self.fail(sql, "statement inside a transaction failed: " + a)
+                commit = False
+                break
+        if commit:
+            self.db.cmd("commit w")
+            for ro in refops:
+                self.ref.cmd(ro)
+        else:
+            self.db.cmd("abort w")
+        return commit
+
     def restart(self, clean=True):
         r = self.db.cmd("close" if clean else "crash", timeout=60)
         if not r.startswith("ok"):
